@@ -1,2 +1,321 @@
-/-! placeholder driver (property C05 not built yet) -/
-def main : IO Unit := IO.println "bad-op"
+import LlgoVerif.Util
+import LlgoVerif.Model.Utf8
+import LlgoVerif.Model.Slice
+/-! Line-protocol driver for C05 (slices and strings).  One request per line, one answer per line; the protocol is
+    the one of `harness/c05/main.go.txt` (the native-copy interpreter over llgo's real runtime functions):
+
+    `cfg Z M` (which repairs the tree contains) | `reset` | `mk r len cap esz seed` | `nil r esz` | `set a idx seed` |
+    `app r a b [cap]` | `appself r a i j [cap]` | `cp a b` | `cpself a i j` | `re r a i j k` | `clr a` | `dump` |
+    `nsc newLen oldCap` | `cat H H` | `ssl H i j` | `less H H` | `eq H H` | `s2b H` | `b2s H` | `s2r H` | `r2s r,r,…` |
+    `i2s N` | `u2s N` | `rune2s N` | `iter H` | `dec H k` | `enc N` | `encrange lo hi` | `rtrange lo hi` | `decgrid mode lo hi`.
+
+    The optional `[cap]` of `app`/`appself` is the capacity the real code chose when it had to grow (Go does not fix
+    the growth policy); without it the model uses its own `nextslicecap`. -/
+open LlgoVerif LlgoVerif.Util LlgoVerif.Slice
+
+structure St where
+  cfg : Cfg := Cfg.current
+  mem : Mem := Mem.empty
+  regs : Array (Option (Slice × Nat)) := Array.replicate 8 none
+  allocs : Array (Nat × Nat) := #[]
+
+/-- extensionally the identity: re-tabulate the heap so that reads stay O(1) (executable only) -/
+def compact (m : Mem) : Mem :=
+  let arr : Array Nat := Array.ofFn (n := m.next + 64) fun i => m.bytes i.val
+  { m with bytes := fun a => arr.getD a 0 }
+
+def pat (seed t : Nat) : Nat := (seed * 37 + t * 11 + 5) % 251
+
+def hexN (bs : List Nat) : String := hex (bs.map UInt8.ofNat)
+
+def parseInt (s : String) : Option Int :=
+  match s.toList with
+  | '-' :: rest => if rest.isEmpty then none else (String.ofList rest).toNat?.map fun n => - (n : Int)
+  | _ => s.toNat?.map fun n => (n : Int)
+
+def parseReg (s : String) : Option Nat :=
+  match s.toList with
+  | ['r', d] => if '0' ≤ d ∧ d ≤ '7' then some (d.toNat - '0'.toNat) else none
+  | _ => none
+
+def whereIs (allocs : Array (Nat × Nat)) (p capBytes : Nat) : String × Array (Nat × Nat) :=
+  match allocs.findIdx? (fun a => a.1 ≤ p ∧ p < a.1 + a.2) with
+  | some i => (s!"{i}+{p - (allocs.getD i (0, 0)).1}", allocs)
+  | none => (s!"{allocs.size}+0", allocs.push (p, if capBytes = 0 then 1 else capBytes))
+
+def desc (st : St) (r : Option (Slice × Nat)) : String × St :=
+  match r with
+  | none => ("unset", st)
+  | some (s, esz) =>
+    let nilf := if s.data = 0 then 1 else 0
+    let (al, allocs) :=
+      if s.cap > 0 ∧ s.data ≠ 0 then whereIs st.allocs s.data (s.cap * esz).toNat else ("-", st.allocs)
+    let st := { st with allocs := allocs }
+    if s.len < 0 ∨ s.cap < s.len ∨ s.cap > 1048576 then
+      (s!"len={s.len} cap={s.cap} al={al} nil={nilf} d=? t=?", st)
+    else
+      let l := (s.len * esz).toNat
+      let d := st.mem.read s.data l
+      let t := st.mem.read (s.data + l) ((s.cap - s.len) * esz).toNat
+      (s!"len={s.len} cap={s.cap} al={al} nil={nilf} d={hexN d} t={hexN t}", st)
+
+def getReg (st : St) (name : String) : Option (Slice × Nat) :=
+  match parseReg name with
+  | some i => (st.regs.getD i none)
+  | none => none
+
+def b2i (b : Bool) : Nat := if b then 1 else 0
+
+def polOf (hint : Option String) : Int → Int → Int :=
+  match hint.bind parseInt with
+  | some c => fun _ _ => c
+  | none => nextslicecap
+
+/-- `SliceAppend` as the real process behaves: on `memcpy` UB the stand-in (like glibc) copies as `memmove`,
+    and the call is flagged `ub=1` -/
+def appendObserved (cfg : Cfg) (pol : Int → Int → Int) (m : Mem) (src : Slice) (data : Nat) (num esz : Int) :
+    Except Err (Mem × Slice × Nat) :=
+  match SliceAppend cfg pol m src data num esz with
+  | .ok (m', s') => .ok (m', s', 0)
+  | .error .ub =>
+    match SliceAppend { cfg with memmoveFix := true } pol m src data num esz with
+    | .ok (m', s') => .ok (m', s', 1)
+    | .error e => .error e
+  | .error e => .error e
+
+def runesStr (rs : List Int) : String :=
+  if rs.isEmpty then "-" else ",".intercalate (rs.map toString)
+
+def mix (d v : Nat) : Nat := (d ^^^ v) * 1099511628211 % 18446744073709551616
+def fnvOff : Nat := 14695981039346656037
+
+def grid : List Nat := [0x00, 0x01, 0x7F, 0x80, 0x81, 0x8F, 0x90, 0x9F, 0xA0, 0xAF, 0xB0, 0xBF, 0xC0, 0xC1, 0xF4, 0xFF]
+
+def gridOne (d : Nat) (s : List Nat) : Nat :=
+  let r := Utf8.decodeRune s
+  let d := mix (mix d r.1) r.2
+  mix (mix d r.1) (r.2 + 1)
+
+def finish (st : St) (out : String) : St × String := ({ st with mem := compact st.mem }, out)
+
+def sliceOp (st : St) (ri : Nat) (res : Except Err (Mem × Slice × Nat)) (esz : Nat) (shWith : Option Nat) : St × String :=
+  match res with
+  | .error _ => (st, "panic")
+  | .ok (m, s, ub) =>
+    let st := { st with mem := m, regs := st.regs.setIfInBounds ri (some (s, esz)) }
+    let (d, st) := desc st (some (s, esz))
+    let sh := match shWith with
+      | some p => s!" sh={b2i (p = s.data)}"
+      | none => ""
+    finish st s!"ok {d}{sh} ub={ub}"
+
+def handle (st : St) (line : String) : St × String :=
+  let f := fields line
+  match f with
+  | ["cfg", z, m] => ({ st with cfg := ⟨z = "1", m = "1"⟩ }, "ok")
+  | ["reset"] => ({ cfg := st.cfg }, "ok")
+  | ["mk", r, l, c, e, seed] =>
+    match parseReg r, parseInt l, parseInt c, e.toNat?, seed.toNat? with
+    | some ri, some l, some c, some esz, some seed =>
+      match MakeSlice st.mem l c esz with
+      | .error _ => (st, "panic")
+      | .ok (m, s) =>
+        let n := (l * esz).toNat
+        let m := m.blit s.data ((List.range n).map (pat seed))
+        sliceOp st ri (.ok (m, s, 0)) esz none
+    | _, _, _, _, _ => (st, "bad-op")
+  | ["nil", r, e] =>
+    match parseReg r, e.toNat? with
+    | some ri, some esz => sliceOp st ri (.ok (st.mem, ⟨0, 0, 0⟩, 0)) esz none
+    | _, _ => (st, "bad-op")
+  | ["set", a, idx, seed] =>
+    match getReg st a, idx.toNat?, seed.toNat? with
+    | some (s, esz), some idx, some seed =>
+      if (idx : Int) < s.len then
+        finish { st with mem := st.mem.blit (s.data + idx * esz) ((List.range esz).map (pat seed)) } "ok"
+      else (st, "bad-op")
+    | _, _, _ => (st, "bad-op")
+  | "app" :: r :: a :: b :: hint =>
+    match parseReg r, getReg st a, getReg st b with
+    | some ri, some (sa, ea), some (sb, eb) =>
+      if ea ≠ eb then (st, "bad-op") else
+      sliceOp st ri (appendObserved st.cfg (polOf hint.head?) st.mem sa sb.data sb.len ea) ea (some sa.data)
+    | _, _, _ => (st, "bad-op")
+  | "appself" :: r :: a :: i :: j :: hint =>
+    match parseReg r, getReg st a, parseInt i, parseInt j with
+    | some ri, some (sa, ea), some i, some j =>
+      let res : Except Err (Mem × Slice × Nat) := do
+        let x ← NewSlice3 sa.data ea sa.cap 0 i sa.cap
+        let y ← NewSlice3 sa.data ea sa.cap j sa.len sa.cap
+        appendObserved st.cfg (polOf hint.head?) st.mem x y.data y.len ea
+      sliceOp st ri res ea (some sa.data)
+    | _, _, _, _ => (st, "bad-op")
+  | ["cp", a, b] =>
+    match getReg st a, getReg st b with
+    | some (sa, ea), some (sb, eb) =>
+      if ea ≠ eb then (st, "bad-op") else
+      let (m, n) := SliceCopy st.mem sa sb.data sb.len ea
+      let st := { st with mem := m }
+      let (d, st) := desc st (some (sa, ea))
+      finish st s!"ok n={n} {d} ub=0"
+    | _, _ => (st, "bad-op")
+  | ["cpself", a, i, j] =>
+    match getReg st a, parseInt i, parseInt j with
+    | some (sa, ea), some i, some j =>
+      let res : Except Err (Mem × Int) := do
+        let x ← NewSlice3 sa.data ea sa.cap i sa.len sa.cap
+        let y ← NewSlice3 sa.data ea sa.cap j sa.len sa.cap
+        pure (SliceCopy st.mem x y.data y.len ea)
+      match res with
+      | .error _ => (st, "panic")
+      | .ok (m, n) =>
+        let st := { st with mem := m }
+        let (d, st) := desc st (some (sa, ea))
+        finish st s!"ok n={n} {d} ub=0"
+    | _, _, _ => (st, "bad-op")
+  | ["re", r, a, i, j, k] =>
+    match parseReg r, getReg st a, parseInt i, parseInt j, parseInt k with
+    | some ri, some (sa, ea), some i, some j, some k =>
+      match NewSlice3 sa.data ea sa.cap i j k with
+      | .error _ => (st, "panic")
+      | .ok s => sliceOp st ri (.ok (st.mem, s, 0)) ea none
+    | _, _, _, _, _ => (st, "bad-op")
+  | ["clr", a] =>
+    match getReg st a with
+    | some (sa, ea) =>
+      let st := { st with mem := SliceClear st.mem sa ea }
+      let (d, st) := desc st (some (sa, ea))
+      finish st s!"ok {d} ub=0"
+    | none => (st, "bad-op")
+  | ["dump"] =>
+    let (out, st) := (List.range 8).foldl (fun (acc : String × St) i =>
+      match acc.2.regs.getD i none with
+      | none => acc
+      | some r => let (d, st') := desc acc.2 (some r); (acc.1 ++ s!" r{i}[{d}]", st')) ("ok", st)
+    (st, out)
+  | ["nsc", a, b] =>
+    match parseInt a, parseInt b with
+    | some a, some b => (st, s!"ok {nextslicecap a b}")
+    | _, _ => (st, "bad-op")
+  -- strings
+  | ["cat", a, b] =>
+    match unhex a, unhex b with
+    | some a, some b => (st, s!"ok {hexN (StringCat (a.map (·.toNat)) (b.map (·.toNat)))} ub=0")
+    | _, _ => (st, "bad-op")
+  | ["ssl", a, i, j] =>
+    match unhex a, parseInt i, parseInt j with
+    | some a, some i, some j =>
+      match StringSlice (a.map (·.toNat)) i j with
+      | .ok s => (st, s!"ok {hexN s}")
+      | .error _ => (st, "panic")
+    | _, _, _ => (st, "bad-op")
+  | ["less", a, b] =>
+    match unhex a, unhex b with
+    | some a, some b => (st, s!"ok {b2i (StringLess (a.map (·.toNat)) (b.map (·.toNat)))}")
+    | _, _ => (st, "bad-op")
+  | ["eq", a, b] =>
+    match unhex a, unhex b with
+    | some a, some b => (st, s!"ok {b2i (StringEqual (a.map (·.toNat)) (b.map (·.toNat)))}")
+    | _, _ => (st, "bad-op")
+  | ["s2b", a] =>
+    match unhex a with
+    | some a => (st, s!"ok {hexN (StringToBytes (a.map (·.toNat)))} ub=0")
+    | none => (st, "bad-op")
+  | ["b2s", a] =>
+    match unhex a with
+    | some a =>
+      -- the bytes live in a scratch block of the heap; the string is a copy of the slice's window
+      let bs := a.map (·.toNat)
+      let r := allocU st.mem bs.length
+      let m := r.2.blit r.1 bs
+      (st, s!"ok {hexN (StringFromBytes m ⟨r.1, bs.length, bs.length⟩)} ub=0")
+    | none => (st, "bad-op")
+  | ["s2r", a] =>
+    match unhex a with
+    | some a => (st, s!"ok {runesStr ((StringToRunes (a.map (·.toNat))).map Int.ofNat)}")
+    | none => (st, "bad-op")
+  | ["r2s", rs] =>
+    let l := if rs = "-" then some [] else (rs.splitOn ",").mapM parseInt
+    match l with
+    | some l => (st, s!"ok {hexN (StringFromRunes l)}")
+    | none => (st, "bad-op")
+  | ["i2s", v] =>
+    match parseInt v with
+    | some v => (st, s!"ok {hexN (StringFromInt64 v)}")
+    | none => (st, "bad-op")
+  | ["u2s", v] =>
+    match v.toNat? with
+    | some v => (st, s!"ok {hexN (StringFromUint64 v)}")
+    | none => (st, "bad-op")
+  | ["rune2s", v] =>
+    match parseInt v with
+    | some v => (st, s!"ok {hexN (StringFromRune v)}")
+    | none => (st, "bad-op")
+  | ["iter", a] =>
+    match unhex a with
+    | some a =>
+      let l := iterAll (a.map (·.toNat))
+      (st, "ok " ++ (if l.isEmpty then "-" else ",".intercalate (l.map fun kv => s!"{kv.1}:{kv.2}")))
+    | none => (st, "bad-op")
+  | ["dec", a, k] =>
+    match unhex a, k.toNat? with
+    | some a, some k =>
+      let r := Utf8.decodeRune ((a.map (·.toNat)).drop k)
+      (st, s!"ok {r.1} {k + r.2}")
+    | _, _ => (st, "bad-op")
+  | ["enc", v] =>
+    match parseInt v with
+    | some v => (st, s!"ok {hexN (Utf8.encodeRune (u32 v))}")
+    | none => (st, "bad-op")
+  | ["encrange", lo, hi] =>
+    match parseInt lo, parseInt hi with
+    | some lo, some hi => Id.run do
+      let mut d := fnvOff
+      for i in [0:(hi - lo).toNat] do
+        let bs := Utf8.encodeRune (u32 (lo + i))
+        d := mix d bs.length
+        for b in bs do d := mix d b
+      return (st, s!"ok {d}")
+    | _, _ => (st, "bad-op")
+  | ["rtrange", lo, hi] =>
+    match parseInt lo, parseInt hi with
+    | some lo, some hi => Id.run do
+      let mut d := fnvOff
+      for i in [0:(hi - lo).toNat] do
+        let s := StringFromRune (lo + i) ++ [0x41]
+        match StringIterNext s 0 with
+        | some (_, v, pos) =>
+          d := mix d v
+          match StringIterNext s pos with
+          | some (k2, _, _) => d := mix d k2
+          | none => d := mix d 0
+        | none => d := mix (mix d 0) 0
+      return (st, s!"ok {d}")
+    | _, _ => (st, "bad-op")
+  | ["decgrid", mode, lo, hi] =>
+    match mode.toNat?, lo.toNat?, hi.toNat? with
+    | some mode, some lo, some hi => Id.run do
+      if mode < 1 ∨ mode > 5 then return (st, "bad-op")
+      let mut d := fnvOff
+      for b0 in [lo:hi] do
+        if mode = 1 then d := gridOne d [b0]
+        else if mode = 2 then
+          for b1 in [0:256] do d := gridOne d [b0, b1]
+        else if mode = 3 then
+          for b1 in [0:256] do
+            for b2 in grid do d := gridOne d [b0, b1, b2]
+        else if mode = 4 then
+          for b1 in grid do
+            for b2 in grid do
+              for b3 in grid do d := gridOne d [b0, b1, b2, b3]
+        else
+          for b1 in [0x80:0xC0] do
+            for b2 in [0x80:0xC0] do
+              d := gridOne d [b0, b1, b2, 0x80]
+              d := gridOne d [b0, b1, b2, 0xBF]
+              d := gridOne d [b0, b1, b2]
+      return (st, s!"ok {d}")
+    | _, _, _ => (st, "bad-op")
+  | _ => (st, "bad-op")
+
+def main : IO Unit := lineLoopSt ({} : St) handle
